@@ -63,6 +63,11 @@ class C04(Check):
                 for auto in (False, True):
                     n += 1
                     yield dict(kind="estimator", seed=seed * 100003 + n, members=members, auto=auto)
+        # more patches than any dense-array shortcut would allow (> 512): normalisation and samples as for few patches
+        for j, members in enumerate((["dr"], ["dr", "rr"], ["dr", "rd", "rr"]) if q else ALL_SUBSETS):
+            for auto in (False, True):
+                n += 1
+                yield dict(kind="estimator", seed=seed * 100003 + n, members=members, auto=auto, many_patches=True)
         for i in range(300 if q else 8000):
             yield dict(kind="nz", seed=seed * 1009 + i, ref=bool(i % 2), unk=bool((i // 2) % 2))
         for i in range(200 if q else 5000):
@@ -134,6 +139,8 @@ class C04(Check):
 
     def _estimator(self, case, rng, bad, counters):
         nb, npatch = int(rng.integers(1, 9)), int(rng.integers(2, 13))
+        if case.get("many_patches"):
+            nb, npatch = int(rng.integers(1, 3)), int(rng.integers(513, 540))
         cf = gen.gen_corrfunc(rng, nb, npatch, case["auto"], members=case["members"])
         if case_bits(case, "empty-data-bin") % 4 == 0:
             # a redshift bin without any data object (binning wider than the sample) while the randoms populate
